@@ -64,6 +64,7 @@ fn run(ctx: &ShardCtx, rep: &mut Report) {
     pt_run(ctx, rep, "untyped-big", n, gen::rvalue(gen::GenCfg { big: true, depth: 3, breadth: 4, size: 24 }), |r, o| untyped_case(ctx, r, o));
     let n = ctx.budget(8_000, 200_000);
     pt_run(ctx, rep, "untyped-wide", n, gen::wide_compound(), |r, o| untyped_case(ctx, r, o));
+    crate::checks::typed::run_c03(ctx, rep);
 }
 
 fn replay(variant: &str, case: &Json) -> Result<(), String> {
@@ -77,7 +78,10 @@ fn replay(variant: &str, case: &Json) -> Result<(), String> {
             let r = if raw { r } else { carve_known(&r, &open_ids_for("C03"), &mut vec![]) };
             roundtrip_value(&r)
         }
-        _ => Err(format!("unknown variant {variant}")),
+        v => {
+            let full = if raw { format!("{v}!raw") } else { v.to_string() };
+            crate::checks::typed::replay_c03(&full, case)
+        }
     }
 }
 
